@@ -11,6 +11,7 @@ import os
 
 import numpy as np
 
+from vf import bigcases
 from vf import core
 from vf import callforms
 from vf import solverlib as sl
@@ -316,3 +317,4 @@ def run(ctx):
     ctx.run_cases(case_halo, halo_configs(ctx.tier), sub="halo-cropped", chunksize=1)
     ctx.run_cases(case_long, long_cases(ctx.tier), sub="off-node points on long grids", chunksize=1)
     core.run_forked(ctx, case_cache_race, [{"pair": "shifted-towers"}], sub="tower shift through a cache two workers write at once (all interleavings, <= 2 preemptions)", nproc=4, timeout=1800)
+    bigcases.run(ctx, "C06")
